@@ -688,8 +688,82 @@ class Inliner:
         return st
 
 
-def inline_new_helpers(tree: ast.Module, known_functions: Set[str]) -> List[Tuple[str, str]]:
+def _inline_local_predicates(tree: ast.Module, ref_locals: Optional[Dict[str, Set[str]]] = None) -> int:
+    """A nested function with the body `return <expr>` (or a `name = lambda ..: <expr>`), bound once in its enclosing function and
+    capturing only names that are bound once there, is substituted at its direct call sites `name(args)` in that function; the
+    definition goes when no other reference is left.  (`def differentiable(t): return isinstance(t, Tensor) and t.requires_grad`)"""
+    n_done = 0
+    for outer in [n for n in ast.walk(tree) if isinstance(n, _FUNCS)]:
+        binds: Dict[str, int] = {}
+        for a_ in ast.walk(outer.args):
+            if isinstance(a_, ast.arg):
+                binds[a_.arg] = binds.get(a_.arg, 0) + 1
+        for n_ in _own_walk(outer):
+            if isinstance(n_, ast.Name) and isinstance(n_.ctx, (ast.Store, ast.Del)):
+                binds[n_.id] = binds.get(n_.id, 0) + 1
+            elif n_ is not outer and isinstance(n_, _FUNCS):
+                binds[n_.name] = binds.get(n_.name, 0) + 1
+        cands = {}
+        for st in outer.body:
+            if isinstance(st, ast.FunctionDef) and not st.decorator_list and not st.args.vararg and not st.args.kwarg and not st.args.kwonlyargs \
+                    and not st.args.defaults:
+                body = _body_without_doc(st)
+                if len(body) == 1 and isinstance(body[0], ast.Return) and body[0].value is not None:
+                    cands[st.name] = ([a.arg for a in st.args.args], body[0].value, st)
+            elif isinstance(st, ast.Assign) and len(st.targets) == 1 and isinstance(st.targets[0], ast.Name) and isinstance(st.value, ast.Lambda) \
+                    and not st.value.args.vararg and not st.value.args.kwarg and not st.value.args.kwonlyargs and not st.value.args.defaults:
+                cands[st.targets[0].id] = ([a.arg for a in st.value.args.args], st.value.body, st)
+        known_locals = None
+        if ref_locals is not None:
+            # only predicates the reference version of this function does not have (the rules know the reference's own closures)
+            quals = [q for q in ref_locals if q == outer.name or q.endswith("." + outer.name)]
+            known_locals = set().union(*[ref_locals[q] for q in quals]) if quals else None
+        for name, (params, expr, defst) in cands.items():
+            if binds.get(name, 0) != 1:
+                continue
+            if known_locals is None or name in known_locals:
+                continue
+            free = {n_.id for n_ in ast.walk(expr) if isinstance(n_, ast.Name)} - set(params)
+            if any(binds.get(fv, 0) > 1 for fv in free) or name in free:
+                continue
+            if any(isinstance(n_, (ast.Lambda, ast.Yield, ast.YieldFrom, ast.Await, ast.NamedExpr)) for n_ in ast.walk(expr)):
+                continue
+            uses = {p_: sum(1 for n_ in ast.walk(expr) if isinstance(n_, ast.Name) and n_.id == p_) for p_ in params}
+
+            class T(ast.NodeTransformer):
+                def __init__(self):
+                    self.count = 0
+
+                def visit_FunctionDef(self, node):
+                    return node if node is not outer and node is defst else self.generic_visit(node)
+
+                def visit_Call(self, node):
+                    self.generic_visit(node)
+                    if isinstance(node.func, ast.Name) and node.func.id == name and not node.keywords and len(node.args) == len(params) \
+                            and not any(isinstance(a, ast.Starred) for a in node.args):
+                        if all(uses[p_] <= 1 or not any(isinstance(x, (ast.Call, ast.Await, ast.Yield)) for x in ast.walk(a)) for p_, a in zip(params, node.args)):
+                            self.count += 1
+                            new = _Subst(dict(zip(params, node.args)), {}).visit(copy.deepcopy(expr))
+                            for sub_ in ast.walk(new):
+                                if hasattr(sub_, "lineno"):
+                                    sub_.lineno, sub_.col_offset = node.lineno, node.col_offset
+                                    sub_.end_lineno, sub_.end_col_offset = getattr(node, "end_lineno", node.lineno), getattr(node, "end_col_offset", node.col_offset)
+                            return ast.copy_location(new, node)
+                    return node
+            t = T()
+            outer.body = [st if st is defst else t.visit(st) for st in outer.body]
+            if t.count:
+                n_done += t.count
+                left = sum(1 for n_ in ast.walk(outer) if isinstance(n_, ast.Name) and n_.id == name and isinstance(n_.ctx, ast.Load))
+                if left == 0:
+                    outer.body = [st for st in outer.body if st is not defst] or [ast.Pass()]
+    return n_done
+
+
+def inline_new_helpers(tree: ast.Module, known_functions: Set[str], ref_locals: Optional[Dict[str, Set[str]]] = None) -> List[Tuple[str, str]]:
     inl = Inliner(tree, known_functions)
     inl.run()
+    if _inline_local_predicates(tree, ref_locals):
+        inl.inlined.append(("<local>", "<predicate>"))
     ast.fix_missing_locations(tree)
     return inl.inlined
